@@ -111,7 +111,45 @@ def gen_val(rng, name: str) -> dict[str, Any]:
     return {"k": "a", "shape": [r, c], "data": [_dy(rng) for _ in range(r * c)]}
 
 
+def alt_rep(rng, pt) -> tuple[dict[str, Any], str]:
+    """Another array EQUAL to the point (same database key) in another representation: integer <->
+    float dtype, int32 <-> int64, 0.0 <-> -0.0, a strided view, or simply a new equal array."""
+    opts = ["copy", "view"]
+    integral = all(Fraction(t).denominator == 1 for t in pt["xs"])
+    zeros = [j for j, t in enumerate(pt["xs"]) if Fraction(t) == 0]
+    if integral:
+        opts += ["flip"] * 4
+    if pt["int"]:
+        opts += ["width"]
+    if zeros:
+        opts += ["negzero"] * 4
+    how = rng.pick(opts)
+    q = {k: (list(v) if isinstance(v, list) else v) for k, v in pt.items() if k != "view"}
+    if how == "flip":
+        q = {"int": not pt["int"], "xs": [str(Fraction(t).numerator) for t in pt["xs"]]}
+        if not q["int"] and zeros and rng.chance(0.3):
+            q["nz"] = [rng.pick(zeros)]
+            how = "flip+negzero"
+    elif how == "width":
+        q["dt"] = "int32" if pt.get("dt", "int64") == "int64" else "int64"
+    elif how == "negzero":
+        cur = sorted(pt.get("nz", ())) if not pt["int"] else []
+        while True:
+            nz = sorted(j for j in zeros if rng.chance(0.6))
+            if nz != cur or pt["int"]:
+                break
+        q = {"int": False, "xs": list(pt["xs"])}
+        if nz:
+            q["nz"] = nz
+        how = "negzero" if not pt["int"] else ("flip+negzero" if nz else "flip")
+    elif how == "view":
+        q["view"] = True
+    return q, how
+
+
 def gen_db_case(rng, in_scope: bool = True) -> dict[str, Any]:
+    # representation-rich histories: the same point is stored again through other equal arrays
+    rep_mode = in_scope and rng.chance(0.45)
     via = rng.pick(["direct"] * 7 + ["store_listener", "iter_listener", "iter_listener"])
     node = rng.pick(["", "", "n1", "n1/n2"])
     dim = rng.pick([1, 2, 2, 3])
@@ -129,6 +167,7 @@ def gen_db_case(rng, in_scope: bool = True) -> dict[str, Any]:
     ops: list[list[Any]] = []
     have_file = False
     in_file: list[bool] = []  # per point: does the file hold it?
+    restore_next: int | None = None
 
     def mark_exported():
         for j in range(len(pts)):
@@ -138,14 +177,20 @@ def gen_db_case(rng, in_scope: bool = True) -> dict[str, Any]:
     for _ in range(n_ops):
         if via != "direct" or rng.chance(0.8 if many_pts else 0.62) or not pts:
             # ---- store
-            if pts and rng.chance(0.25 if many_pts else 0.55):
+            if restore_next is not None and restore_next < len(pts):
+                i, restore_next = restore_next, None  # the point just created, stored again before any export
+                op_pt = alt_rep(rng, pts[i])[0] if rng.chance(0.85) else pts[i]
+            elif pts and rng.chance(0.25 if many_pts else 0.55):
                 i = rng.randrange(len(pts))
+                op_pt = alt_rep(rng, pts[i])[0] if rep_mode and rng.chance(0.6) else pts[i]
             else:
                 span = 3
                 while True:
                     span += 1
                     is_int = int_mode == "int" or (int_mode == "mixed" and rng.chance(0.5))
-                    xs = [str(rng.randint(-span, span)) if is_int or rng.chance(0.4) else _dy(rng) for _ in range(dim)]
+                    xs = [str(rng.randint(-span, span)) if is_int or rng.chance(0.8 if rep_mode else 0.4) else _dy(rng) for _ in range(dim)]
+                    if rep_mode and rng.chance(0.35):
+                        xs[rng.randrange(dim)] = "0"
                     # distinct by VALUE whatever the dtype: an all-zero int64 point and an all-zero
                     # float64 point have the same bytes, hence the same hash, and are one database key
                     key = tuple(Fraction(t) for t in xs)
@@ -153,6 +198,18 @@ def gen_db_case(rng, in_scope: bool = True) -> dict[str, Any]:
                         seen.add(key)
                         break
                 pts.append({"int": is_int, "xs": xs})
+                if rep_mode:
+                    # the FIRST representation of a point is not always the plain one
+                    zeros = [j for j, t in enumerate(xs) if Fraction(t) == 0]
+                    if is_int and rng.chance(0.15):
+                        pts[-1]["dt"] = "int32"
+                    elif not is_int and zeros and rng.chance(0.3):
+                        pts[-1]["nz"] = [rng.pick(zeros)]
+                    if rng.chance(0.1):
+                        pts[-1]["view"] = True
+                    if via != "store_listener" and rng.chance(0.5):
+                        restore_next = len(pts) - 1
+                op_pt = pts[-1]
                 stored.append({})
                 exported.append(set())
                 in_file.append(False)
@@ -173,7 +230,7 @@ def gen_db_case(rng, in_scope: bool = True) -> dict[str, Any]:
                 outs[n] = gen_val(rng, n)
             new_iter = bool(outs) and not stored[i]
             stored[i].update(outs)
-            ops.append(["store", pts[i], outs])
+            ops.append(["store", op_pt, outs])
             if via == "store_listener" or (via == "iter_listener" and new_iter):
                 ops.append(["export", "a"])
                 mark_exported()
@@ -184,6 +241,7 @@ def gen_db_case(rng, in_scope: bool = True) -> dict[str, Any]:
         elif in_scope and have_file and rng.chance(0.15):
             # ---- restart: a new Database filled from the file; stores since the last export are lost
             ops.append(["reload"])
+            restore_next = None
             keep = [j for j in range(len(pts)) if in_file[j]]
             stored = [{n: v for n, v in stored[j].items() if n in exported[j]} for j in keep]
             pts = [pts[j] for j in keep]
@@ -222,7 +280,9 @@ def val_tok(v) -> str:
 
 def db_lines(case) -> list[str]:
     lines = ["new"]
-    for op in case["ops"]:
+    # the model works on database KEYS: a point is named by the representation the database holds
+    # (the first one stored); the representation actually passed is in `raw_lines`
+    for op in canonical_ops(case["ops"]):
         if op[0] == "store":
             lines.append(" ".join(["store", pt_tok(op[1]), *[f"{n}={val_tok(v)}" for n, v in op[2].items()]]))
         elif op[0] in ("reload", "update"):
@@ -264,15 +324,21 @@ def canon_db(db) -> str:
 
 
 def canon_file(path: str, node: str) -> str:
+    return canon_file_both(path, node)[0]
+
+
+def canon_file_both(path: str, node: str) -> tuple[str, str]:
+    """(raw tree of the groups x/k/v, datasets of the group `x` bit for bit), read through h5py."""
     import h5py
 
     if not os.path.exists(path):
-        return "-"
+        return "-", "-"
     with h5py.File(path, "r") as h5:
         g = h5[node] if node else h5
         xg, kg, vg = g["x"], g["k"], g["v"]
         idxs = sorted(int(n) for n in xg)
         ents = []
+        reps = []
         for i in idxs:
             s = str(i)
             keys = [k.decode() if isinstance(k, bytes) else str(k) for k in kg[s][()]] if s in kg else ["<no-k>"]
@@ -284,19 +350,84 @@ def canon_file(path: str, node: str) -> str:
                     a = np.asarray(vg[an][str(j)][()])
                     flat = [rat(t) for t in a.astype(float).ravel().tolist()]
                     arrs.append(f"{j}:{shape_tok(list(a.shape))}:" + (",".join(flat) if flat else "[]"))
+            xa = np.asarray(xg[s][()])
+            reps.append(f"{i}@{rep_line_of_array(xa)}")
             ents.append(
-                f"{i}@{canon_pt(np.asarray(xg[s][()]))}[" + "&".join(keys) + "|" + ",".join(scal) + "|" + "+".join(arrs) + "]"
+                f"{i}@{canon_pt(xa)}[" + "&".join(keys) + "|" + ",".join(scal) + "|" + "+".join(arrs) + "]"
             )
-        return ";".join(ents) if ents else "-"
+        return (";".join(ents) if ents else "-"), (";".join(reps) if reps else "-")
 
 
 # --------------------------------------------------------------------------- implementation runner
 
 
+def pkey(pt) -> tuple:
+    """The database key of a point = its VALUES: arrays that are equal component by component
+    (integer or float dtype, 0.0 or -0.0, any memory layout) are one key (`HashableNdarray.__eq__`)."""
+    return tuple(Fraction(t) for t in pt["xs"])
+
+
 def build_pt(pt) -> np.ndarray:
+    """The array of a point *representation*: dtype (`int`, optional `dt` = int32/int64), values,
+    negative zeros at the positions `nz` (float only), optionally a strided view (`view`)."""
     if pt["int"]:
-        return np.array([int(t) for t in pt["xs"]], dtype=np.int64)
-    return np.array([float(Fraction(t)) for t in pt["xs"]], dtype=np.float64)
+        a = np.array([int(t) for t in pt["xs"]], dtype=np.dtype(pt.get("dt", "int64")))
+    else:
+        a = np.array([float(Fraction(t)) for t in pt["xs"]], dtype=np.float64)
+        for j in pt.get("nz", ()):
+            a[j] = -0.0
+    if pt.get("view"):
+        big = np.zeros(2 * len(a) + 1, dtype=a.dtype)
+        big[1::2] = a
+        a = big[1::2]  # non-contiguous view of a larger buffer
+    return a
+
+
+def rep_tok(pt) -> str:
+    """Exact description of a representation: dtype, values, positions of the negative zeros."""
+    dt = pt.get("dt", "int64") if pt["int"] else "float64"
+    return f"{dt}[{','.join(pt['xs'])}]" + ("".join(f"-z{j}" for j in sorted(pt.get("nz", ()))) if not pt["int"] else "")
+
+
+_DT_CODE = {"float64": "f", "int64": "i", "int32": "j"}
+
+
+def rep_line_tok(pt) -> str:
+    """Protocol token of the array passed to `store` (representation layer of the model)."""
+    dt = _DT_CODE[pt.get("dt", "int64") if pt["int"] else "float64"]
+    nz = sorted(pt.get("nz", ())) if not pt["int"] else []
+    return f"{dt}|{','.join(pt['xs']) if pt['xs'] else '[]'}|{','.join(str(j) for j in nz) if nz else '-'}"
+
+
+def rep_line_of_array(a: np.ndarray) -> str:
+    vals = a.tolist()
+    xs = [rat(t) for t in vals]
+    nz = [str(j) for j, t in enumerate(vals) if isinstance(t, float) and t == 0.0 and math.copysign(1.0, t) < 0]
+    return f"{_DT_CODE.get(a.dtype.name, a.dtype.name)}|{','.join(xs) if xs else '[]'}|{','.join(nz) if nz else '-'}"
+
+
+def rep_lines(case) -> list[str]:
+    """The history for the representation layer: the arrays exactly as they are passed."""
+    lines = ["rnew"]
+    for op in case["ops"]:
+        if op[0] == "store":
+            lines.append("rstore " + rep_line_tok(op[1]))
+        elif op[0] in ("reload", "update"):
+            lines.append("r" + op[0])
+        else:
+            lines.append(f"rexport {op[1]}")
+    return lines
+
+
+def rep_of_array(a: np.ndarray) -> str:
+    """`rep_tok` of a real array (what the database / the file holds)."""
+    xs = []
+    for t in a.tolist():
+        xs.append(rat(t) if isinstance(t, float) and math.isfinite(t) else str(t))
+    nz = ""
+    if a.dtype.kind == "f":
+        nz = "".join(f"-z{j}" for j, t in enumerate(a.tolist()) if t == 0.0 and math.copysign(1.0, t) < 0)
+    return f"{a.dtype.name}[{','.join(xs)}]" + nz
 
 
 def build_val(v):
@@ -341,6 +472,8 @@ class DbRun:
         self.db = Database(input_space=self.space) if self.space is not None else Database()
         self.Database = Database
         self.lines: list[str] = []  # one per op
+        self.rlines: list[str] = []  # one per op: representation layer (database keys, file datasets x/<i>)
+        self.filex_s = "-"
         self.error: str | None = None
         self.file_s = "-"
         self.read_s = "-"
@@ -348,6 +481,8 @@ class DbRun:
         self.reload_errors: list[tuple[int, str]] = []
         self.space_equal: list[tuple[int, bool]] = []
         self._bufs: dict = {}
+        self.final_single = None
+        self.final_single_error: str | None = None
 
     def _export(self, mode: str) -> None:
         path = Path(self.path) if self.case.get("pathlib") else self.path
@@ -362,9 +497,10 @@ class DbRun:
 
         a = build_pt(pt)
         if self.case.get("alias_x"):
-            buf = self._bufs.get((a.dtype.kind, len(a)))
+            slot = (a.dtype.str, len(a), bool(pt.get("view")))
+            buf = self._bufs.get(slot)
             if buf is None:
-                buf = self._bufs[(a.dtype.kind, len(a))] = a.copy()
+                buf = self._bufs[slot] = a if pt.get("view") else a.copy()
             buf[:] = a
             a = buf
         if self.case.get("hashable"):
@@ -372,7 +508,7 @@ class DbRun:
         return a
 
     def _refresh(self, op_index: int) -> None:
-        self.file_s = canon_file(self.path, self.node)
+        self.file_s, self.filex_s = canon_file_both(self.path, self.node)
         try:
             re = self.Database.from_hdf(self.path, hdf_node_path=self.node, log=False)
             self.read_s = canon_db(re)
@@ -396,6 +532,7 @@ class DbRun:
             op = ops[i]
             if self.error:
                 self.lines.append("E")
+                self.rlines.append("E")
                 i += 1
                 continue
             try:
@@ -405,6 +542,7 @@ class DbRun:
                     if fused:
                         # the listener exported inside `store`: the model's intermediate line is skipped
                         self.lines.append("*")
+                        self.rlines.append("*")
                         i += 1
                         self._refresh(i)
                 elif op[0] == "reload":
@@ -415,10 +553,21 @@ class DbRun:
                     self._export(op[1])
                     self._refresh(i)
                 self.lines.append(f"in={int(flags[i])} db={canon_db(self.db)} file={self.file_s} read={self.read_s}")
+                keys = [rep_line_of_array(x.wrapped_array) for x in self.db]
+                self.rlines.append(f"keys={';'.join(keys) if keys else '-'} x={self.filex_s}")
             except Exception as e:  # noqa: BLE001
                 self.error = common.exc_class(e) + ": " + repr(e)[:160]
                 self.lines.append("E")
+                self.rlines.append("E")
             i += 1
+        if not self.error:
+            # the run is over: ONE final export of the in-memory database to a new file, reloaded
+            try:
+                single = os.path.join(self.dir, "single-final.h5")
+                self.db.to_hdf(single, hdf_node_path=self.node)
+                self.final_single = self.Database.from_hdf(single, hdf_node_path=self.node, log=False)
+            except Exception as e:  # noqa: BLE001
+                self.final_single_error = common.exc_class(e) + ": " + repr(e)[:160]
         return self
 
 
@@ -445,21 +594,28 @@ def spec_equal(spec, got) -> bool:
         return False
 
 
-def expected_content(ops, upto: int) -> list[tuple[dict, dict]]:
-    """Plain twin of the database: ordered points, per point the last value stored under each name.
-    A `reload` restarts from the content at the last export."""
+def _twin(ops, upto: int):
+    """Plain twin of the database, from the property text: ordered points, per point the last value
+    stored under each name. A point is identified by its VALUES (`pkey`): storing again at an equal
+    array of another representation (integer/float dtype, sign of a zero, layout) updates the SAME
+    entry, which keeps the representation stored FIRST (a dict keeps its first key). A `reload`
+    restarts from the content at the last export. Returns (expected content, canonical ops) where the
+    canonical ops name every point by the representation the database holds for it."""
     order: list[tuple] = []
     content: dict[tuple, tuple[dict, dict]] = {}
     snap_order: list[tuple] = []
     snap: dict[tuple, tuple[dict, dict]] = {}
+    canon: list[list[Any]] = []
     for op in ops[: upto + 1]:
         if op[0] == "export":
             snap_order = list(order)
             snap = {k: (v[0], dict(v[1])) for k, v in content.items()}
+            canon.append(op)
             continue
         if op[0] == "reload":
             order = list(snap_order)
             content = {k: (v[0], dict(v[1])) for k, v in snap.items()}
+            canon.append(op)
             continue
         if op[0] == "update":
             for k in snap_order:
@@ -467,13 +623,24 @@ def expected_content(ops, upto: int) -> list[tuple[dict, dict]]:
                     content[k] = (snap[k][0], {})
                     order.append(k)
                 content[k][1].update(snap[k][1])
+            canon.append(op)
             continue
-        key = (op[1]["int"], tuple(Fraction(t) for t in op[1]["xs"]))
+        key = pkey(op[1])
         if key not in content:
             content[key] = (op[1], {})
             order.append(key)
         content[key][1].update(op[2])
-    return [content[k] for k in order]
+        canon.append(["store", content[key][0], op[2]])
+    return [content[k] for k in order], canon
+
+
+def expected_content(ops, upto: int) -> list[tuple[dict, dict]]:
+    return _twin(ops, upto)[0]
+
+
+def canonical_ops(ops) -> list[list[Any]]:
+    """The history with every point named by the representation the database holds for its key."""
+    return _twin(ops, len(ops))[1]
 
 
 def db_matches(expected, db) -> str | None:
@@ -484,11 +651,13 @@ def db_matches(expected, db) -> str | None:
     for i, ((pt, outs), (x, got)) in enumerate(zip(expected, items)):
         a = x.wrapped_array
         if (a.dtype.kind in "iu") != pt["int"]:
-            return f"point {i}: dtype {a.dtype} (integer expected: {pt['int']})"
+            return f"point {i}: dtype {a.dtype} (integer expected: {pt['int']}; held as {rep_tok(pt)})"
         if a.ndim != 1 or len(a) != len(pt["xs"]) or not all(
             math.isfinite(float(g)) and F(float(g)) == Fraction(s) for g, s in zip(a.tolist(), pt["xs"])
         ):
             return f"point {i}: coordinates {a.tolist()} instead of {pt['xs']}"
+        if a.ndim == 1 and rep_of_array(a) != rep_tok(pt):
+            return f"point {i}: held as {rep_of_array(a)} instead of {rep_tok(pt)} (dtype / sign of zeros)"
         if set(got) != set(outs):
             return f"point {i}: output names {sorted(got)} instead of {sorted(outs)}"
         for n, spec in outs.items():
@@ -531,6 +700,20 @@ def db_oracle(case, run: DbRun, twin: bool = True) -> list[tuple[str, str]]:
     m = db_matches(exp, run.db)
     if m:
         bad.append(("memory-differs", f"the in-memory database differs from the stored content: {m}"))
+    if run.final_single_error:
+        bad.append(("single-export-raises", f"a single final export of the in-memory database (or its reload) raised {run.final_single_error}"))
+    elif run.final_single is not None:
+        m = db_matches(exp, run.final_single)
+        if m:
+            bad.append(("single-final-export-differs", f"a single final export of the in-memory database reloads differently from the stored content: {m}"))
+        elif run.reloads and run.reloads[-1][0] == len(ops) - 1 and not bad:
+            # the history ends with an export: the incrementally written file and the single final
+            # export must reload to the same content, points held in the same representation
+            inc = run.reloads[-1][1]
+            a = [(rep_of_array(x.wrapped_array), canon_outs(o)) for x, o in inc.items()]
+            b = [(rep_of_array(x.wrapped_array), canon_outs(o)) for x, o in run.final_single.items()]
+            if a != b:
+                bad.append(("incremental-vs-single", f"the incrementally written file reloads to {a} while a single final export of the same database reloads to {b}"))
     if run.reloads and not bad:
         idx, re = run.reloads[-1]
         for k, ok in run.space_equal:
@@ -556,12 +739,21 @@ def compare_db(case, run: DbRun, model: list[str]) -> tuple[int, str, str] | Non
 
     model[0] answers `new`; model[k+1] answers op k.
     """
+    n = len(case["ops"]) + 1
     for k, impl in enumerate(run.lines):
         if impl == "*":
             continue
         m = model[k + 1]
         if impl != m:
             return (k, impl, m)
+    # representation layer: model[n] answers `rnew`, model[n + 1 + k] answers op k
+    if len(model) >= 2 * n:
+        for k, impl in enumerate(run.rlines):
+            if impl == "*":
+                continue
+            m = model[n + 1 + k]
+            if impl != m:
+                return (k, "rep " + impl, "rep " + m)
     return None
 
 
@@ -598,7 +790,7 @@ def fix_listener_ops(case):
     for op in case["ops"]:
         if op[0] != "store":
             continue
-        key = (op[1]["int"], tuple(op[1]["xs"]))
+        key = pkey(op[1])
         cur = stored.setdefault(key, {})
         new_iter = bool(op[2]) and not cur
         cur.update(op[2])
@@ -618,7 +810,7 @@ def scope_flags(case) -> list[bool]:
     flags = []
     for op in case["ops"]:
         if op[0] == "store":
-            key = (op[1]["int"], tuple(Fraction(t) for t in op[1]["xs"]))
+            key = pkey(op[1])
             cur = stored.setdefault(key, {})
             ok = True
             for n, v in op[2].items():
@@ -690,7 +882,7 @@ def check_db_cases(res: Result, cases: list[dict[str, Any]], in_scope: bool, twi
     all_lines: list[str] = []
     spans = []
     for c in cases:
-        ls = db_lines(c)
+        ls = db_lines(c) + rep_lines(c)
         spans.append((len(all_lines), len(ls)))
         all_lines += ls
     model_all = common.run_lean_driver(PID, all_lines)
@@ -710,7 +902,7 @@ def check_db_cases(res: Result, cases: list[dict[str, Any]], in_scope: bool, twi
         res.count(f"db:via={case['via']}")
         res.count("db:node=" + ("root" if not case["node"] else "nested"))
         res.count(f"db:exports={min(n_exp, 6)}")
-        n_pts = len({(o[1]["int"], tuple(o[1]["xs"])) for o in ops if o[0] == "store"})
+        n_pts = len({pkey(o[1]) for o in ops if o[0] == "store"})
         res.count("db:points>=11" if n_pts >= 11 else "db:points<11")
         if any(o[0] == "export" and o[1] == "w" for o in ops):
             res.count("db:has-fresh-export")
@@ -723,7 +915,7 @@ def check_db_cases(res: Result, cases: list[dict[str, Any]], in_scope: bool, twi
             res.count("db:branch=" + b)
         if n_exp >= 2 and n_store >= 2:
             res.nontrivial("db:" + " / ".join(db_lines(case)[1:]))
-        res.sample({"case": "db", "protocol": db_lines(case)[:6], "impl_last": run.lines[-1] if run.lines else None, "model_last": model[-1]})
+        res.sample({"case": "db", "protocol": db_lines(case)[:6], "impl_last": run.lines[-1] if run.lines else None, "model_last": model[len(case["ops"])], "rep_impl_last": run.rlines[-1] if run.rlines else None, "rep_model_last": model[-1]})
         bad = db_oracle(case, run, twin=(ci % twin_every == 0)) if in_scope else []
         for key, msg in bad:
             res.count("db:oracle-fail:" + key)
@@ -765,9 +957,23 @@ def check_db_cases(res: Result, cases: list[dict[str, Any]], in_scope: bool, twi
                 "correspondence",
                 "db-model-vs-impl",
                 f"implementation and Lean model disagree after op {k} of a store/export history (no property-violating input found among its neighbours)",
-                {"case": case, "op_index": k, "protocol_lines": db_lines(case), "impl": impl, "model": m,
+                {"case": case, "op_index": k, "protocol_lines": db_lines(case) + rep_lines(case), "impl": impl, "model": m,
                  "correspondence": "Driver/C11.lean store/export state line"},
             )
+
+
+def _rep_change(first, pt) -> str | None:
+    """How the array passed by a store differs from the representation the database holds."""
+    if pt.get("view"):
+        return "strided-view" if rep_tok(first) == rep_tok(pt) else "strided-view+other"
+    if rep_tok(first) == rep_tok(pt):
+        return None
+    if first["int"] != pt["int"]:
+        base = "int-then-float" if first["int"] else "float-then-int"
+        return base + ("+negative-zero" if pt.get("nz") else "")
+    if first["int"]:
+        return "int-width"
+    return "sign-of-zero"
 
 
 def _append_branches(case) -> set:
@@ -775,14 +981,22 @@ def _append_branches(case) -> set:
     out = set()
     stored: dict[tuple, dict] = {}
     exported: dict[tuple, set] = {}
+    first: dict[tuple, dict] = {}  # representation held by the database
+    other: dict[tuple, set] = {}  # other representations passed since the last export
     have = False
     for op in case["ops"]:
         if op[0] == "store":
-            key = (op[1]["int"], tuple(op[1]["xs"]))
+            key = pkey(op[1])
             stored.setdefault(key, {}).update(op[2])
+            ch = _rep_change(first.setdefault(key, op[1]), op[1])
+            if ch:
+                out.add("rep:" + ch)
+                other.setdefault(key, set()).add(ch)
             continue
         if op[0] == "reload":
             stored = {k: {n: v for n, v in stored[k].items() if n in exported[k]} for k in exported}
+            first = {k: first[k] for k in exported}
+            other = {}
             out.add("append-after-reload")
             continue
         if op[0] == "update":
@@ -792,10 +1006,14 @@ def _append_branches(case) -> set:
             for key, cur in stored.items():
                 if key not in exported:
                     out.add("append-new-point")
+                    if other.get(key):
+                        out.add("append-new-point-stored-through-several-representations")
                 else:
                     new = set(cur) - exported[key]
                     if new:
                         out.add("append-new-outputs")
+                        if other.get(key):
+                            out.add("append-new-outputs-stored-through-another-representation")
                         kinds = {("s" if cur[n]["k"] in ("f", "i", "np") else "a") for n in new}
                         out.add("append-new-" + "+".join(sorted(kinds)))
                         if len(cur) > 10:
@@ -806,14 +1024,14 @@ def _append_branches(case) -> set:
             out.add("fresh")
         else:
             out.add("first-or-empty-file-export")
+        if other:
+            out.add("export-after-store-through-another-representation")
+        other = {}
         have = True
         for key, cur in stored.items():
             exported[key] = set(cur)
     return out
 
-
-# =========================================================================== design-space cases
-# case = {"kind": "ds", "node": str, "vars": [{"name", "size", "int", "lb": [rat|None], "ub": [...], "value": [rat]|None}]}
 
 DS_NAMES = ["x", "y", "x_1", "x_shared", "alpha", "x10", "x1", "yy", "z", "Mach", "X", "_t", "name2", "v_1_2"]
 
@@ -1515,6 +1733,34 @@ def exhaustive_db_cases(max_len: int) -> list[dict[str, Any]]:
     return cases
 
 
+def exhaustive_rep_cases(max_len: int) -> list[dict[str, Any]]:
+    """All histories of length <= max_len over: one point as int64 / as float64, another point with a zero /
+    with a negative zero (each with a fixed output set), append export, fresh export, restart."""
+    f = {"k": "f", "shape": [], "data": ["1/2"]}
+    g = {"k": "a", "shape": [2], "data": ["1", "-3/4"]}
+    alphabet: list[list[Any]] = [
+        ["store", {"int": True, "xs": ["2", "3"]}, {}],
+        ["store", {"int": False, "xs": ["2", "3"]}, {"f": f}],
+        ["store", {"int": False, "xs": ["0", "1"]}, {"g": g}],
+        ["store", {"int": False, "xs": ["0", "1"], "nz": [0]}, {}],
+        ["export", "a"], ["export", "w"], ["reload"],
+    ]
+    cases = []
+    for n in range(2, max_len + 1):
+        for seq in itertools.product(alphabet, repeat=n):
+            have = False
+            ok = True
+            for op in seq:
+                if op[0] == "export":
+                    have = True
+                elif op[0] == "reload" and not have:
+                    ok = False
+                    break
+            if ok and any(op[0] == "export" for op in seq) and any(op[0] == "store" for op in seq):
+                cases.append({"kind": "db", "node": "", "via": "direct", "space": False, "ops": [list(o) for o in seq]})
+    return cases
+
+
 def load_corpus() -> list[dict[str, Any]]:
     d = common.CORPUS_DIR / PID
     out = []
@@ -1529,7 +1775,9 @@ def run(ctx) -> Result:
     res.rule = (
         "db: random store/export histories (1-25 ops, 16 output names incl. gradients '@f', value kinds python float/int, "
         "numpy scalar, 0-d/size-1/vector/matrix/empty/int arrays, lists, empty entries, int/float/mixed points, root/nested node, "
-        "direct exports or store/new-iteration listeners, fresh and append exports, restarts from the file); non-trivial = >= 2 stores and >= 2 exports, "
+        "direct exports or store/new-iteration listeners, fresh and append exports, restarts from the file; in 45 % of the histories a point is "
+        "stored again through EQUAL arrays of another representation -- int64 <-> float64, int32, 0.0 <-> -0.0, strided views -- "
+        "in particular right after its first store, before any export); non-trivial = >= 2 stores and >= 2 exports, "
         "distinct by protocol lines. ds: random design spaces (1-5 variables, sizes 1-4, float/integer, infinite bounds, missing "
         "values, multi-character names), non-trivial = >= 2 variables. pbd: problems built from a generated specification of every "
         "written attribute (1-3 design variables with 1- and multi-character names; per function 0-3 input and output names of 1 and "
@@ -1542,7 +1790,7 @@ def run(ctx) -> Result:
     res.assumptions = [
         "in-scope histories never overwrite an output already present in the file with a different value (append mode does not propagate overwrites by design); such histories are probed against the model only",
         "the points of a history have distinct 64-bit hashes",
-        "the points of a history differ by value (an all-zero int64 point and an all-zero float64 point share their bytes and are the same key)",
+        "'same points' = the arrays the database holds, bit for bit (dtype, values, sign of zeros): arrays that are equal component by component are ONE database key (HashableNdarray) and the database keeps the array stored first; the file, its reload and a single final export must hold exactly those arrays; float32 points are not generated",
     ]
     rng = ctx.rng
     corpus = load_corpus()
@@ -1563,7 +1811,8 @@ def run(ctx) -> Result:
         check_db_cases(res, cases, True, twin_every=1 if ctx.thorough else 2)
         done += len(cases)
     if ctx.thorough:
-        ex = exhaustive_db_cases(4)
+        ex = exhaustive_rep_cases(4) + exhaustive_db_cases(4)
+        res.count("db:exhaustive-representations-small-scope", len(exhaustive_rep_cases(4)))
         for k in range(0, len(ex), 400):
             if not time_left(ctx):
                 res.notes.append(f"exhaustive enumeration stopped after {k} of {len(ex)} histories (deadline)")
@@ -1605,9 +1854,11 @@ def replay(path: str) -> int:
         return 1
     if case["kind"] == "db":
         r = DbRun(case).run()
-        model = common.run_lean_driver(PID, db_lines(case))
+        model = common.run_lean_driver(PID, db_lines(case) + rep_lines(case))
+        n = len(case["ops"]) + 1
         for k, (ln, impl) in enumerate(zip(db_lines(case)[1:], r.lines)):
             print(f"op {k}: {ln}\n   impl : {impl}\n   model: {model[k + 1]}")
+            print(f"   {rep_lines(case)[k + 1]}\n   impl : {r.rlines[k]}\n   model: {model[n + 1 + k]}")
         bad = db_oracle(case, r) if in_scope_db(case) else []
         for k, m in bad:
             print("ORACLE FAILS:", k, m)
